@@ -9,6 +9,7 @@ mod indep;
 mod probe;
 mod retire;
 mod sexp;
+mod share;
 mod subalg;
 mod subj;
 mod timed;
@@ -36,6 +37,7 @@ fn run_case(case: &Sexp) -> String {
     "atform" => timed::run_atform(body),
     "subalg" => subalg::run_subalg(body),
     "retire" => retire::run_retire(body),
+    "share" => share::run_share(body),
     "indep" => indep::run_indep(body),
     "tree" => tree::run_tree(body),
     "finalize" => finalize::run_finalize(body),
